@@ -27,7 +27,21 @@ class ReverseBrownian(brownian_base.BaseBrownian):
     def __call__(self, ta, tb=None, return_U=False, return_A=False):
         # Whether or not to negate the statistics depends on the return value of the adjoint SDE. Currently, the adjoint
         # returns negated drift and diffusion, so we don't negate here.
-        return self.base_brownian(-tb, -ta, return_U=return_U, return_A=return_A)
+        out = self.base_brownian(-tb, -ta, return_U=return_U, return_A=return_A)
+        if not (return_U or return_A):
+            return out
+        # The increment over [ta, tb] is (by the above) that of the base Brownian motion over [-tb, -ta]. Its space-time
+        # integral and Levy area must then be those of the time-reversed path, not of the base path.
+        W, *extras = out
+        if return_U:
+            U = extras[0]
+            if U is not None:
+                extras[0] = (tb - ta) * W - U
+        if return_A:
+            A = extras[-1]
+            if A is not None:
+                extras[-1] = -A
+        return (W, *extras)
 
     def __repr__(self):
         return f"{self.__class__.__name__}(base_brownian={self.base_brownian})"
